@@ -257,6 +257,43 @@ func resCase(w *gal.Writer, s, class string) {
 		Class: class, Desc: map[string]any{"resolve": s, "name": n, "version": v, "dep": d, "pin": p}})
 }
 
+// constraint names from the whole class the grammar admits in a name: every byte except @ = > < ~ (and NUL, which the
+// harness keeps out of constraint strings); the punctuation a hand-written character class would forget comes up often
+var nameSpecials = []byte("[]{}!$,%&'()*;?\\^`| \"#")
+
+func genName(r *gal.Rand) string {
+	for {
+		n := 1 + r.Intn(5)
+		b := make([]byte, 0, n+4)
+		if r.Chance(1, 2) {
+			b = append(b, gal.Pick(r, []string{"cmd:", "pc:", "py3-", "lib", "a", "/usr/bin/"})...)
+		}
+		for i := 0; i < n; i++ {
+			var c byte
+			switch r.Intn(4) {
+			case 0:
+				c = gal.Pick(r, nameSpecials)
+			case 1:
+				c = byte(1 + r.Intn(255)) // any byte, non-ASCII included
+			default:
+				c = gal.Pick(r, []byte("abcxyzABZ0189._+:/-"))
+			}
+			if strings.IndexByte("@=><~\x00", c) >= 0 {
+				continue
+			}
+			b = append(b, c)
+		}
+		if len(b) == 0 || strings.HasPrefix(string(b), "so:") {
+			continue
+		}
+		return string(b)
+	}
+}
+
+// the names of the corpus: one per character a narrowed class would lose (seeded C03-7), a real-world one first
+var classNames = []string{"cmd:[", "a[b]", "x{y}", "bang!", "$var", "a,b", "100%", "a&b", "it's", "f(x)", "glob*", "a;b", "why?", "back\\slash", "a^b", "tick`", "a|b",
+	"two words", "caf\xc3\xa9", "\xff\xfe", "quote\"d", "#tag", "tab\there", "[", " "}
+
 func pickN(r *gal.Rand) int {
 	if r.Chance(1, 2) {
 		return 0
@@ -342,6 +379,14 @@ func main() {
 		satCase(w, "so:libfoo.so.1", "=", "1.2", "", "0.1.2", false, "corpus") // so: rewrite prefixes 0.
 		satCase(w, "so:libfoo.so.1", "=", "1.2-r3", "", "1.2-r3", false, "corpus")
 		satCase(w, "a", "=", "notaversion", "", "1", false, "corpus") // error result
+		// names from the whole class under every operator (seeded C03-7: a narrowed name class returns the whole string as a
+		// name with "any version"): the split must keep the parts and the operator must judge
+		for _, nm := range classNames {
+			for _, op := range ops {
+				satCase(w, nm, op, "9.5", "", "9.5-r0", true, "corpus-name-class")
+				satCase(w, nm, op, "9.4-r0", "edge", "9.4", true, "corpus-name-class")
+			}
+		}
 		for i := 0; i < 1200*scale; i++ {
 			small := r.Chance(3, 4)
 			cv := genParts(r, small)
@@ -350,9 +395,13 @@ func main() {
 				v = genParts(r, small)
 			}
 			name := gal.Pick(r, names)
+			class := "structured"
+			if r.Chance(1, 2) {
+				name, class = genName(r), "structured-name-class"
+			}
 			op := gal.Pick(r, ops)
 			clean := !strings.HasPrefix(name, "so:")
-			satCase(w, name, op, cv.String(), gal.Pick(r, pins), v.String(), clean, "structured")
+			satCase(w, name, op, cv.String(), gal.Pick(r, pins), v.String(), clean, class)
 		}
 		// operator runs and odd shapes: not in the clean envelope, model vs implementation only
 		for i := 0; i < 300*scale; i++ {
@@ -382,6 +431,12 @@ func main() {
 				fltCase(w, "a", op, p[1], "9", []string{"x", "a=" + p[0]}, true, "corpus-spellings-provided")
 			}
 		}
+		for _, nm := range classNames {
+			for _, op := range ops {
+				fltCase(w, nm, op, "9.5", "9.5-r0", nil, true, "corpus-name-class")
+				fltCase(w, nm, op, "9.5", "1", []string{nm + "=9.4-r0"}, true, "corpus-name-class")
+			}
+		}
 		fltCase(w, "a", "", "", "1", nil, true, "corpus")
 		fltCase(w, "a", "", "", "notaversion", nil, false, "corpus")
 		fltCase(w, "a", "=", "notaversion", "1", nil, false, "corpus")
@@ -408,6 +463,14 @@ func main() {
 				default:
 					provs = append(provs, "a="+pv.String())
 				}
+			}
+			if r.Chance(1, 3) {
+				nm := genName(r)
+				for k := range provs {
+					provs[k] = nm + strings.TrimPrefix(provs[k], "a")
+				}
+				fltCase(w, nm, gal.Pick(r, ops), cv.String(), v.String(), provs, true, "structured-name-class")
+				continue
 			}
 			fltCase(w, "a", gal.Pick(r, ops), cv.String(), v.String(), provs, true, "structured")
 		}
@@ -552,8 +615,19 @@ func main() {
 		for _, s := range []string{"", "a", "a=", "a==1", "a=1@", "a@", "@x", "=1", "a=1@e@f", "a>=1@edge", "a=>1", "a~=1", "a<>1", "a=1=2", "a b=1", "a=1 ", "so:=1", "so:x=", "so:x=1-r", "so:x=1-r1", "so:x=1-r1x", "so:x=a=b", "so:x>=1", "so:x<=1-r2", "so:x>1", "so:x~1", "so:x~=1", "so:x=>1", "so:x==1", "so:x=1@edge", "so:x=1-r1@edge", "so:x>=1@edge", "so:libstdc++.so.6>=6.0.33", "so:=", "so:>=1", "sox=1", "a=1@e-f", "a@e=1", "é=1", "a=\n1"} {
 			resCase(w, s, "corpus")
 		}
+		for _, nm := range classNames {
+			resCase(w, nm, "corpus-name-class")
+			for _, op := range ops {
+				resCase(w, nm+op+"9.4-r0", "corpus-name-class")
+				resCase(w, nm+op+"1.2_rc3@edge", "corpus-name-class")
+			}
+		}
 		for i := 0; i < 800*scale; i++ {
-			s := gal.Pick(r, names) + gal.Pick(r, ops) + genParts(r, true).String()
+			nm := gal.Pick(r, names)
+			if r.Chance(1, 2) {
+				nm = genName(r)
+			}
+			s := nm + gal.Pick(r, ops) + genParts(r, true).String()
 			if r.Chance(1, 2) {
 				s += "@" + gal.Pick(r, []string{"edge", "x1", "a-b", ""})
 			}
